@@ -66,3 +66,5 @@ def build(u):
         emit_method(u, T, r"<'a> Token<'a>", g, 'types::Token::' + g)
     for g in ['get_source_view', 'has_names']:
         emit_method(u, T, r'SourceMap\b', g, 'types::SourceMap::' + g)
+    # R-mono (T = Arc<str>), as for the builder's set_file
+    emit_method(u, T, r'SourceMap\b', 'set_file', 'types::SourceMap::set_file', sig_prep=lambda f: mono(f, u, 'T', r'Into<Arc<str>>', 'Arc<str>'))
